@@ -62,7 +62,6 @@ TrSearch ==
   /\ IsEv("search")
   /\ LET res == Ev.res IN
      /\ Len(res) <= Ev.k
-     /\ Len(res) = (IF Ev.k < Cardinality(Held) THEN Ev.k ELSE Len(res))        \* k results when k are held ...
      /\ \A j \in 1..Len(res) : res[j][1] \in Held                                \* each currently in the index
      /\ Cardinality({res[j][1] : j \in 1..Len(res)}) = Len(res)                  \* distinct
      /\ \A j \in 1..(Len(res) - 1) : res[j][2] <= res[j + 1][2]                  \* non-decreasing distance
